@@ -15,27 +15,40 @@ Proof. exact from_san_no_panic. Qed.
 Theorem C12_legal : forall b s m, from_san b s = Ok m -> In m (moves_of b).
 Proof. exact from_san_legal. Qed.
 
+Theorem C12_castle_is_king : forall b s m,
+  is_castle_text s = true -> from_san b s = Ok m -> piece_on b (msrc m) = Some King.
+Proof. exact from_san_castle_is_king. Qed.
+
 Check C12_square_no_panic : forall x : str, square_from_str x <> Panic.
 Print Assumptions C12_square_no_panic.
 Check C12_no_panic : forall (b : board) (s : str), from_san b s <> Panic.
 Print Assumptions C12_no_panic.
 Check C12_legal : forall (b : board) (s : str) (m : cmove), from_san b s = Ok m -> In m (moves_of b).
 Print Assumptions C12_legal.
+Check C12_castle_is_king : forall (b : board) (s : str) (m : cmove),
+  is_castle_text s = true -> from_san b s = Ok m -> piece_on b (msrc m) = Some King.
+Print Assumptions C12_castle_is_king.
 
 (** ** Structure: castling test, else scanner, then filter *)
 Theorem C12_from_san_scan : forall b s,
   from_san b s =
   if is_castle_text s
-  then (if existsb (cmove_eqb (castle_move b s)) (moves_of b) then Ok (castle_move b s) else Err)
+  then (if piece_opt_eqb (piece_on b (msrc (castle_move b s))) King
+           && existsb (cmove_eqb (castle_move b s)) (moves_of b)
+        then Ok (castle_move b s) else Err)
   else run_fields b (scan s).
 Proof. exact from_san_scan. Qed.
 Theorem C12_castle_texts : forall s, is_castle_text s = true <-> In s castle_texts.
 Proof. exact is_castle_text_iff. Qed.
 Theorem C12_castle_kingside : forall b mk, In mk marks ->
-  from_san b (O_O ++ mk) = if legal b (castle_km b true) then Ok (castle_km b true) else Err.
+  from_san b (O_O ++ mk) =
+  if piece_opt_eqb (piece_on b (msrc (castle_km b true))) King && legal b (castle_km b true)
+  then Ok (castle_km b true) else Err.
 Proof. exact from_san_castle_kingside. Qed.
 Theorem C12_castle_queenside : forall b mk, In mk marks ->
-  from_san b (O_O_O ++ mk) = if legal b (castle_km b false) then Ok (castle_km b false) else Err.
+  from_san b (O_O_O ++ mk) =
+  if piece_opt_eqb (piece_on b (msrc (castle_km b false))) King && legal b (castle_km b false)
+  then Ok (castle_km b false) else Err.
 Proof. exact from_san_castle_queenside. Qed.
 Theorem C12_castle_squares : forall b kingside,
   castle_km b kingside =
@@ -49,16 +62,22 @@ Proof. exact castle_km_squares. Qed.
 Check C12_from_san_scan : forall (b : board) (s : str),
   from_san b s =
   (if is_castle_text s
-   then if existsb (cmove_eqb (castle_move b s)) (moves_of b) then Ok (castle_move b s) else Err
+   then if piece_opt_eqb (piece_on b (msrc (castle_move b s))) King
+           && existsb (cmove_eqb (castle_move b s)) (moves_of b)
+        then Ok (castle_move b s) else Err
    else run_fields b (scan s)).
 Print Assumptions C12_from_san_scan.
 Check C12_castle_texts : forall s : str, is_castle_text s = true <-> In s castle_texts.
 Print Assumptions C12_castle_texts.
 Check C12_castle_kingside : forall (b : board) (mk : str), In mk marks ->
-  from_san b (O_O ++ mk) = (if legal b (castle_km b true) then Ok (castle_km b true) else Err).
+  from_san b (O_O ++ mk) =
+  (if piece_opt_eqb (piece_on b (msrc (castle_km b true))) King && legal b (castle_km b true)
+   then Ok (castle_km b true) else Err).
 Print Assumptions C12_castle_kingside.
 Check C12_castle_queenside : forall (b : board) (mk : str), In mk marks ->
-  from_san b (O_O_O ++ mk) = (if legal b (castle_km b false) then Ok (castle_km b false) else Err).
+  from_san b (O_O_O ++ mk) =
+  (if piece_opt_eqb (piece_on b (msrc (castle_km b false))) King && legal b (castle_km b false)
+   then Ok (castle_km b false) else Err).
 Print Assumptions C12_castle_queenside.
 Check C12_castle_squares : forall b kingside,
   castle_km b kingside =
